@@ -14,12 +14,20 @@ def main():
     from vt.common import call
     from vt.props.c09 import _digest_ts, build_kwargs
 
+    k = int(sys.argv[3]) if len(sys.argv) > 3 else 0
+    order = list(range(n))
+    if k % 4 == 1:
+        order.reverse()
+    elif k % 4 == 2:
+        order = order[n // 2:] + order[:n // 2]
+    elif k % 4 == 3:
+        order = order[1::2] + order[0::2]
     out = {}
-    for i in range(n):
+    for i in order:
         ts = tskit.load(os.path.join(d, f"{i}.trees"))
         with open(os.path.join(d, f"{i}.json")) as f:
             cfg = json.load(f)
-        status, res = call(tsdate.date, ts, **build_kwargs(cfg))
+        status, res = call(lambda: tsdate.date(ts, **build_kwargs(cfg, ts)))
         out[str(i)] = _digest_ts(res) if status == "ok" else f"{status}:{type(res).__name__}"
     print("DIGESTS " + json.dumps(out))
 
